@@ -27,6 +27,13 @@ def on(ev, field, ops):
     return a[1] in ops and (a[0] or '').split('.')[-1].split('>')[-1] == field
 
 
+def idler_snapshots(f):
+    """locals that only ever hold a value read from the idler counter (directly or through another such local)"""
+    ld = r'(this->)?idler\.load\(.*\)'
+    a = K.locals_defined_only_by(f, '^%s$' % ld)
+    return a | K.locals_defined_only_by(f, '^(%s|%s)$' % (ld, '|'.join(re.escape(x) for x in sorted(a)) or '@'))
+
+
 def insts(prog, name):
     fs = prog.find(name, all=True, required=False)
     seen, out = set(), []
@@ -148,8 +155,8 @@ def channels(R, prog):
                        key_fn=lambda ev, lab=lab: '%s.K6:%s:returns-after-push' % (P, lab), describe=lambda ev: 'send returns only after push_backoff', min_sites=2)
             # the early exits: nobody idle, or enough tokens in flight
             K.check_at(R, P + '.K7', G, res, lambda ev: ev.kind == 'return' and ev.depth == 0,
-                       require=lambda st, ev: any(re.match(r'^G:cur_idler=F$', x) or re.match(r'^G:\w+=F$', x) and 'idler' in x for x in st) or
-                       any(re.match(r'^G:fresh <= cur_idler=T$', x) or re.match(r'^G:\w+ <= \w+=T$', x) for x in st) or
+                       require=lambda st, ev, f=f: any(('G:%s=F' % n) in st for n in idler_snapshots(f)) or
+                       any(('G:%s <= %s=T' % (a, b)) in st for a in idler_snapshots(f) for b in idler_snapshots(f)) or
                        any(re.match(r'^G:this->pending\.compare_exchange_\w+\(.*\)=T$', x) for x in st),
                        key_fn=lambda ev, lab=lab: '%s.K7:%s:no-silent-return' % (P, lab),
                        describe=lambda ev: 'send returns without signalling only if no consumer idles or enough wake-ups are in flight', min_sites=3, what='return')
@@ -175,7 +182,7 @@ def channels(R, prog):
             K.check_at(R, P + '.K4', G, res, lambda ev: ev.kind == 'exit', require=lambda st, ev: 'S:idle' not in st,
                        key_fn=lambda ev, lab=lab: '%s.K4:%s:idler-paired' % (P, lab), describe=lambda ev: 'idler-- on every exit that incremented it', min_sites=1, what='exit')
             K.check_at(R, P + '.K7', G, res, lambda ev: ev.kind == 'return' and ev.depth == 0,
-                       require=lambda st, ev: any(re.match(r'^G:.*pop\(x\)=T$', x) for x in st),
+                       require=lambda st, ev: any(re.match(r'^G:.*pop\(%s\)=T$' % re.escape(ev.show(ev.e['sub']) or '?'), x) for x in st),
                        key_fn=lambda ev, lab=lab: '%s.K7:%s:returns-popped-element' % (P, lab), describe=lambda ev: 'recv returns only after a successful pop', min_sites=2, what='return')
             ns = lambda ev: ev.kind == 'call' and (ev.callee() or '').endswith('::notify_senders')
             res3 = an.run(G, [an.SeenTracker([('notified', ns)])])
@@ -184,13 +191,14 @@ def channels(R, prog):
     # sender-side backoff
     for f in insts(prog, 'photon::common::SendBackoff::notify_senders'):
         G = K.build_f(R, prog, f)
-        lw = lambda ev: on(ev, 'send_waiters', ('load',))
+        p_sem, p_waiters, p_pending = K.param(f, 0), K.param(f, 1), K.param(f, 2)      # (send_sem, send_waiters, send_pending)
+        lw = lambda ev: on(ev, p_waiters, ('load',))
         res = an.run(G, [an.SeenTracker([('fence', lambda ev: K.is_fence(ev, 'seq_cst')), ('read', lw)]), an.GuardTracker(lambda k: True)])
         K.check_at(R, P + '.K1', G, res, lw, require=lambda st, ev: 'S:read' in st or ('S:fence' in st and (atom(ev)[2] or ['?'])[0] == 'seq_cst'),
                    key_fn=lambda ev: P + '.K1:SendBackoff::notify_senders:dekker-fence-before-waiters-load',
                    describe=lambda ev: 'seq_cst fence before the first (seq_cst) read of send_waiters', min_sites=1, what='send_waiters.load')
         K.check_at(R, P + '.K6', G, res, lambda ev: ev.kind == 'call' and ev.callee() == 'photon::semaphore::signal',
-                   require=lambda st, ev: any(re.match(r'^G:send_pending\.compare_exchange_\w+\(.*\)=T$', x) for x in st),
+                   require=lambda st, ev: ev.recv_path() == p_sem and any(re.match(r'^G:%s\.compare_exchange_\w+\(.*\)=T$' % re.escape(p_pending), x) for x in st),
                    key_fn=lambda ev: P + '.K6:SendBackoff::notify_senders:signal-after-winning-cas',
                    describe=lambda ev: 'send_sem.signal only after winning the send_pending CAS', min_sites=1, what='signal')
     n = 0
@@ -200,8 +208,9 @@ def channels(R, prog):
         n += 1
         G = K.build_f(R, prog, f)
         pf = f.decls[f.j['params'][1]]['name']
-        reg = lambda ev: on(ev, 'send_waiters', ('fetch_add', 'operator++'))
-        dereg = lambda ev: on(ev, 'send_waiters', ('fetch_sub', 'operator--'))
+        px, p_waiters, p_pending = K.param(f, 0), K.param(f, 5), K.param(f, 6)   # (x, push_fn, turn, usec, send_sem, send_waiters, send_pending)
+        reg = lambda ev: on(ev, p_waiters, ('fetch_add', 'operator++'))
+        dereg = lambda ev: on(ev, p_waiters, ('fetch_sub', 'operator--'))
         retry = lambda ev, pf=pf: ev.kind == 'call' and ev.e.get('op') == '()' and ev.recv_path() == pf
         sleep = lambda ev: ev.kind == 'call' and (ev.callee() or '').startswith('photon::semaphore::wait')
         res = an.run(G, [an.SeenTracker([('reg', reg, ('retry',)), ('dereg', dereg, ('reg',)), ('retry', retry)]), an.GuardTracker(lambda k: True)])
@@ -213,11 +222,11 @@ def channels(R, prog):
                    describe=lambda ev: 'a blocked sender sleeps only after registering AND retrying the push', min_sites=1, what='send_sem.wait')
         K.check_at(R, P + '.K4', G, res, lambda ev: ev.kind == 'exit', require=lambda st, ev: 'S:reg' not in st,
                    key_fn=lambda ev, lab=lab: '%s.K4:%s:waiters-paired' % (P, lab), describe=lambda ev: 'send_waiters-- on every exit', min_sites=1)
-        K.check_at(R, P + '.K6', G, res, lambda ev: on(ev, 'send_pending', ('fetch_sub', 'operator--')),
+        K.check_at(R, P + '.K6', G, res, lambda ev: on(ev, p_pending, ('fetch_sub', 'operator--')),
                    require=lambda st, ev: any(re.match(r'^G:r=F$', x) or re.match(r'^G:\w+=F$', x) for x in st),
                    key_fn=lambda ev, lab=lab: '%s.K6:%s:pending-dec-only-when-token-consumed' % (P, lab), describe=lambda ev: 'send_pending-- only when a token was consumed', min_sites=1)
         K.check_at(R, P + '.K7', G, res, lambda ev: ev.kind == 'exit',
-                   require=lambda st, ev: any(re.match(r'^G:%s\(x\)=T$' % re.escape(pf), x) for x in st),
+                   require=lambda st, ev: ('G:%s(%s)=T' % (pf, px)) in st,
                    key_fn=lambda ev, lab=lab: '%s.K7:%s:returns-after-successful-push' % (P, lab), describe=lambda ev: 'push_backoff returns only after push_fn succeeded', min_sites=1)
     if n < 1:
         R.broken.append('C07: no push_backoff<PhotonPause> instantiation found')
